@@ -11,7 +11,9 @@ PROPERTY = 'C17'
 RULE = ('full product: every sorted list (multiset) A of length 0..L over the grid {50,100,100.25,100.5,101,102,200} x every '
         'such list B x {th: 0,0.25,0.5,1,150; ppm: 0,2500,5000,10000,1e6} x {all,closest,largest} x every intensity '
         'assignment over {0,1,2,5}; fragment layer: every subset of <=3 of 6 real fragments in every order x every subset '
-        'of <=3 of 6-8 peaks (one duplicate m/z, one zero intensity) in every order x tolerance x mode; a state = one list A (all B inside); non-trivial = A '
+        'of <=3 of 6-8 peaks (one duplicate m/z, one zero intensity) in every order x tolerance x mode; long layer: pairs of '
+        'arithmetic progressions of length 0..30 on the dyadic grid (5 lengths x 5 steps x 5 offsets each side) x 10 '
+        'tolerances x 3 modes; a state = one list A (all B inside); non-trivial = A '
         'non-empty')
 ASSUMPTIONS = ['window bounds are computed with the expression of the statement (mz +- tol, or mz*tol/1e6 for ppm) in '
                'IEEE double arithmetic; grid values and Th tolerances are dyadic so inclusive bounds are unambiguous',
@@ -24,8 +26,19 @@ PPM = [0.0, 2500.0, 5000.0, 10000.0, 1e6]
 INT = [0.0, 1.0, 2.0, 5.0]   # 0: profile-mode spectra carry zero-intensity points
 
 
+# upper part of the quantifier (lists up to length 30): arithmetic progressions on the dyadic grid, every combination of
+# length, step and offset for both lists, so that windows overlap, nest, tie and run past either end
+LONG_N = [0, 1, 2, 7, 30]
+LONG_STEP = [0.0, 0.25, 0.5, 1.0, 1.5]
+LONG_OFF = [0.0, 0.25, -0.25, -8.0, 8.0]
+LONG_TH = [0.0, 0.25, 0.5, 1.0, 4.0, 150.0]
+LONG_PPM = [0.0, 2500.0, 10000.0, 1e6]
+
+
 def describe(tier):
-    return {'max_len': 4 if tier == 'thorough' else 3, 'grid': GRID, 'th': TH, 'ppm': PPM, 'intensities': INT}
+    return {'max_len': 4 if tier == 'thorough' else 3, 'grid': GRID, 'th': TH, 'ppm': PPM, 'intensities': INT,
+            'long_layer': {'lengths': LONG_N, 'steps': LONG_STEP, 'offsets': LONG_OFF, 'th': LONG_TH, 'ppm': LONG_PPM,
+                           'form': 'A = [100 + i*step], B = [100 + off + j*step2], all modes, two intensity patterns'}}
 
 
 def lists(L):
@@ -42,12 +55,15 @@ def shards(tier):
     out += [{'kind': 'frag', 'nf': nf, 'first': i, 'family': 'mixed'} for nf in (2, 3) for i in range(6)]
     out += [{'kind': 'frag', 'nf': nf, 'first': i, 'family': 'tie'} for nf in (2, 3) for i in range(6)]
     out.append({'kind': 'frag0'})
+    out += [{'kind': 'long', 'n': n, 'step': a} for n in LONG_N for a in LONG_STEP]
     return out
 
 
 def gen(shard, tier):
     if shard['kind'] == 'pairs':
         yield {'kind': 'pairs', 'a': shard['a'], 'L': describe(tier)['max_len']}, len(shard['a']), len(shard['a']) > 0
+    elif shard['kind'] == 'long':
+        yield {'kind': 'long', 'n': shard['n'], 'step': shard['step']}, shard['n'], shard['n'] > 0
     elif shard['kind'] == 'frag0':
         yield {'kind': 'frag', 'fr': [], 'tier': tier}, 0, False
     else:
@@ -72,8 +88,59 @@ def brute(A, B, tol, typ):
     return out
 
 
+def _long(case, ctx, p):
+    A = [100.0 + i * case['step'] for i in range(case['n'])]
+    nsub = nmatch = 0
+    for m in LONG_N:
+        for step2 in LONG_STEP:
+            for off in LONG_OFF:
+                B = [100.0 + off + j * step2 for j in range(m)]
+                pats = [[INT[(j + 1) % 4] for j in range(m)], [INT[(3 * j) % 4] for j in range(m)]]
+                for typ, tols in (('th', LONG_TH), ('ppm', LONG_PPM)):
+                    for tol in tols:
+                        nsub += 1
+                        exp = brute(A, B, tol, typ)
+                        nmatch += sum(map(len, exp))
+                        st, got = lib.call(p.get_matched_indices, list(A), list(B), tol, typ)
+                        e1 = [None if not x else (x[0], x[-1] + 1) for x in exp]
+                        if st != 'ok' or [None if g is None else tuple(g) for g in got] != e1:
+                            ctx.fail('get_matched_indices', e1, got, call=[A, B, tol, typ])
+                        st, got = lib.call(p.match_spectra, list(A), list(B), tol, typ, 'all')
+                        e2 = [None if not x else x for x in exp]
+                        if st != 'ok' or got != e2:
+                            ctx.fail('match-all', e2, got, call=[A, B, tol, typ, 'all'])
+                        st, got = lib.call(p.match_spectra, list(A), list(B), tol, typ, 'closest')
+                        ok = st == 'ok' and len(got) == len(A)
+                        if ok:
+                            for a, x, g in zip(A, exp, got):
+                                if not x:
+                                    ok = ok and g is None
+                                else:
+                                    ok = ok and g in x and abs(a - B[g]) == min(abs(a - B[j]) for j in x)
+                        if not ok:
+                            ctx.fail('match-closest', exp, got, call=[A, B, tol, typ, 'closest'])
+                        ctx.evals += 3
+                        for ints in pats:
+                            st, got = lib.call(p.match_spectra, list(A), list(B), tol, typ, 'largest', list(ints))
+                            ctx.evals += 1
+                            ok = st == 'ok' and len(got) == len(A)
+                            if ok:
+                                for x, g in zip(exp, got):
+                                    if not x:
+                                        ok = ok and g is None
+                                    else:
+                                        ok = ok and g in x and ints[g] == max(ints[j] for j in x)
+                            if not ok:
+                                ctx.fail('match-largest', exp, got, call=[A, B, tol, typ, 'largest', list(ints)])
+    ctx.sub_states = nsub
+    ctx.sub_nontrivial = nsub if A else 0
+    ctx.outcome = [case['n'], case['step'], nmatch]
+
+
 def check(case, ctx):
     p = lib.pt()
+    if case['kind'] == 'long':
+        return _long(case, ctx, p)
     if case['kind'] == 'pairs':
         A = case['a']
         nmatch = 0
